@@ -54,7 +54,7 @@ def _enum(tier, shard, nshards):
 
 
 PHASES = [
-    HypPhase("dyadic", _case, dict(quick=1500, thorough=25000)),
+    HypPhase("dyadic", _case, dict(quick=2000, thorough=25000)),
     EnumPhase("grid6", _enum,
               lambda tier: "all unordered pairs of subsets of {0..6} on [0,6] x (MRTS1,MRTS2) "
                            "in {(0,1),(1,2),(2,3),(1.5,4),(3,12)}"),
